@@ -53,12 +53,12 @@ def shapes(max_pos: int, max_kw: int):
                     yield ", ".join(parts)
 
 
-def run(prog: Program, ctx: Ctx) -> None:  # noqa: PLR0912,PLR0915
+def alignment_table(prog: Program, ctx: Ctx, rule: str, max_pos: int, max_kw: int, min_shapes: int):
+    """Rule body shared with C17: get_parameters vs inspect.signature on every parameter-list shape.  Returns the observed tuple layout."""
     gp = prog.function("_griffe.agents.nodes.parameters.get_parameters")
     it = Interp(prog)
-    ctx.rule("R1", "get_parameters (abstractly evaluated on the real ast.arguments of each parameter-list shape) lists the same names, order, "
+    ctx.rule(rule, "get_parameters (abstractly evaluated on the real ast.arguments of each parameter-list shape) lists the same names, order, "
                    "kinds, annotations and defaults-per-parameter as inspect.signature of the function compiled from the same text")
-    max_pos, max_kw = (3, 2) if ctx.tier == "quick" else (4, 3)
     n_shapes = 0
     bad_classes: set[str] = set()
     tuple_shape: tuple[int, int, int, int] | None = None
@@ -102,10 +102,18 @@ def run(prog: Program, ctx: Ctx) -> None:  # noqa: PLR0912,PLR0915
             if cls in bad_classes:
                 continue
             bad_classes.add(cls)
-        ctx.ob("R1", f"shape|{text}" if ok else f"shape-class|{_shape_class(text)}", ok,
+        ctx.ob(rule, f"shape|{text}" if ok else f"shape-class|{_shape_class(text)}", ok,
                f"def f({text}): griffe lists {got if got is not None else res}; CPython binds {want}", where(gp), nontrivial=bool(text))
-    ctx.expect_min("R1", n_shapes, 1500)
+    ctx.expect_min(rule, n_shapes, min_shapes)
     ctx.analysed["parameter_list_shapes"] = n_shapes
+    return tuple_shape
+
+
+def run(prog: Program, ctx: Ctx) -> None:  # noqa: PLR0912,PLR0915
+    gp = prog.function("_griffe.agents.nodes.parameters.get_parameters")
+    it = Interp(prog)
+    max_pos, max_kw = (3, 2) if ctx.tier == "quick" else (4, 3)
+    tuple_shape = alignment_table(prog, ctx, "R1", max_pos, max_kw, 1500)
 
     # ------------------------------------------------------------------ R2 consumers
     ctx.rule("R2", "both consumers destructure get_parameters' 4-tuples in the producer's order and pass name/kind/annotation/default to the right field; "
